@@ -71,19 +71,28 @@ def inst_label(inst):
 
 # ------------------------------------------------------------------------------------- solving
 def _solve_z3(formulas, timeout_ms, seed):
-    s = z3.Solver()
-    s.set("timeout", timeout_ms)
-    s.set("random_seed", seed % 1000)
-    for f in formulas:
-        s.add(f)
+    """Portfolio inside z3: (1) the default solver for a short slice, (2) the SMT core behind a sum-of-monomials
+    normalisation (polynomial identities that the default nonlinear engine sits on for ~14 s are immediate there),
+    (3) the default solver with the full budget.  All three are z3's own decision procedures (sound); the first
+    verdict that is not 'unknown' is taken."""
     t0 = time.time()
-    r = s.check()
-    dt = time.time() - t0
-    if r == z3.unsat:
-        return "unsat", None, dt, s
-    if r == z3.sat:
-        return "sat", s.model(), dt, s
-    return "unknown:" + s.reason_unknown(), None, dt, s
+    s = None
+    stages = [("default", min(timeout_ms, 4000)), ("som", min(timeout_ms, 10000)), ("default", timeout_ms)]
+    if timeout_ms <= 4000:
+        stages = [("default", timeout_ms)]
+    for kind, tmo in stages:
+        s = z3.Solver() if kind == "default" else z3.Then(z3.With("simplify", som=True), "smt").solver()
+        s.set("timeout", int(tmo))
+        if kind == "default":
+            s.set("random_seed", seed % 1000)
+        for f in formulas:
+            s.add(f)
+        r = s.check()
+        if r == z3.unsat:
+            return "unsat", None, time.time() - t0, s
+        if r == z3.sat:
+            return "sat", s.model(), time.time() - t0, s
+    return "unknown:" + s.reason_unknown(), None, time.time() - t0, s
 
 
 def _solve_cli(smt2, cmd, timeout_s):
@@ -233,6 +242,10 @@ def run_concrete(c, inst, values=None, rng=None):
         # float range exceeded on this concrete input: outside the real-number abstraction, not a contract violation
         return "skip", None, K.used
     except Exception as ex:   # native exception = the real code raised where the contract expects a result
+        if type(ex).__name__ == "LinAlgError" and "ingular" in str(ex):
+            # the assumed contract of numpy.linalg.solve covers non-singular systems only (paths without a solution are
+            # dropped by the assumption; the real code raises): a draw that makes the system singular is outside it
+            return "skip", None, K.used
         tb = traceback.format_exc(limit=6)
         return "exception", f"{type(ex).__name__}: {ex}\n{tb}", K.used
     if K.violations:
